@@ -28,6 +28,12 @@ Record ops (F : Type) := mkOps {
   fofN : N -> F;             (* usize as f64 *)
   fround : F -> Z;           (* f64::round() as isize (ties away from zero) *)
   ffinite : F -> bool;       (* f64::is_finite *)
+  fexp : F -> F;
+  fln : F -> F;
+  fpow : F -> F -> F;        (* f64::powf *)
+  ffloor : F -> F;
+  fceil : F -> F;
+  froundf : F -> F;          (* f64::round as a float *)
 }.
 Arguments f0 {F}. Arguments f1 {F}. Arguments f2 {F}. Arguments fhalf {F}.
 Arguments fisq2 {F}. Arguments fpi {F}.
@@ -35,6 +41,7 @@ Arguments fadd {F}. Arguments fsub {F}. Arguments fmul {F}. Arguments fdiv {F}.
 Arguments fneg {F}. Arguments fsqrt {F}. Arguments fcos {F}. Arguments fsin {F}.
 Arguments fleb {F}. Arguments fltb {F}. Arguments feqb {F}. Arguments fapprox {F}. Arguments fofN {F}.
 Arguments fround {F}. Arguments ffinite {F}.
+Arguments fexp {F}. Arguments fln {F}. Arguments fpow {F}. Arguments ffloor {F}. Arguments fceil {F}. Arguments froundf {F}.
 
 Section Complex.
   Context {F : Type} (OP : ops F).
